@@ -37,6 +37,10 @@ def smStep (s : SmState) (op : List String) : SmState × String :=
     match tryUnion (s.r (nat! a)) (s.r (nat! b)) with
     | some m => (s.set (nat! d) m, "some")
     | none => (s, "none")
+  | ["nf", k] =>
+    -- `Slot::named("f<k>")`: the fresh-kind slot `4k+1`; the fresh counter moves past it (`Slot.named`, C17)
+    let c := 4 * nat! k + 1
+    ({ s with fresh := if s.fresh ≤ c then c + 4 else s.fresh }, toString c)
   | ["isb", r] => (s, showBool (isBijection (s.r (nat! r))))
   | ["isp", r] => (s, showBool (isPerm (s.r (nat! r))))
   | ["keys", r] => (s, showList (sortDedup (keys (s.r (nat! r)))))
